@@ -57,6 +57,7 @@ func runC10(p *Prog, r *Report) {
 	c10R3(p, r)
 	c10R4(p, r)
 	ignoreUnexportedRule(p, r, "C10.R6")
+	umbrellaSettingRule(p, r, "C10.R7")
 	r.Rule("C10.R5", "only the target is written: every emitted `=`/`:=`/`++` has a left-hand side derived from assignTo, a fresh local or `_` (same analysis as C04.R2)", 1)
 	sub2 := newReport("C04", r.Tier)
 	c04R1R2(p, sub2, "C04.R1", "C04.R2")
@@ -519,8 +520,15 @@ var precedencePairs = [][3]string{
 	{"TargetPointer", "Basic", "a pointer target is handled before the value rules"},
 }
 
-func c11R2(p *Prog, r *Report) {
-	r.Rule("C11.R2", "rule precedence: in generator.BuildSteps every pair of known builders whose Matches overlap keeps its documented relative order (table B5); unknown additional builders are ignored", 10)
+func c11R2(p *Prog, r *Report) { precedenceRule(p, r, "C11.R2") }
+
+// precedenceRule checks table B5, or only the pairs whose first builder is named.
+func precedenceRule(p *Prog, r *Report, id string, first ...string) {
+	floor := 10
+	if len(first) > 0 {
+		floor = 1
+	}
+	r.Rule(id, "rule precedence: in generator.BuildSteps every pair of known builders whose Matches overlap keeps its documented relative order (table B5); unknown additional builders are ignored"+onlyNote(first), floor)
 	gp := p.Pkg("generator")
 	order := map[string]int{}
 	for _, f := range gp.Syntax {
@@ -546,6 +554,9 @@ func c11R2(p *Prog, r *Report) {
 		return
 	}
 	for _, pr := range precedencePairs {
+		if len(first) > 0 && !has(first, pr[0]) {
+			continue
+		}
 		site := fmt.Sprintf("generator.BuildSteps/%s < %s", pr[0], pr[1])
 		a, b := order[pr[0]], order[pr[1]]
 		switch {
